@@ -21,7 +21,7 @@
    emitted score                               median2 (numerators) # (2 * D). *)
 From Coq Require Import List NArith ZArith QArith Bool Arith Permutation Sorting.Sorted.
 From Outrank Require Import IO.Str IO.StrProofs.
-From Outrank Require IO.Csv IO.Accept.
+From Outrank Require IO.Csv IO.CsvProofs IO.Accept.
 From Outrank Require Import Common.Median.
 From Outrank Require Pipeline.Stream.
 From Outrank Require Import Pipeline.Aggregate Pipeline.RankGraph.
@@ -117,7 +117,8 @@ Theorem E2E_batch_split_scores : forall header rows a b D1 D2,
   Qeq (Z.of_N (pair_num header D1 rows a b) # npos D1) (Z.of_N (pair_num header D2 rows a b) # npos D2).
 Proof. exact batch_split_scores. Qed.
 
-(* a score recorded m times per batch (mirror rows, self pairs listed twice) has the same median *)
+(* a score recorded m times per batch has the same median (today m = 1, and m = 2 for a self pair, whose mirror row carries
+   the same ordered pair; the lemma does not depend on the candidate list's multiplicities) *)
 Theorem E2E_median_replicate : forall m l, (0 < m)%nat -> median2 (replicate m l) = median2 l.
 Proof. exact median2_replicate. Qed.
 
@@ -128,29 +129,34 @@ Proof. exact maxfreq_fast_eq. Qed.
 (* ---------------------------------------------------------------------------------------------------------- *)
 (* the text layer *)
 
-(* the run on a text is the run on (header, parsed physical lines), and csv.reader never raises on a physical line *)
+(* the run on a text is the run on (header, parsed physical lines), and csv.reader never raises on a physical line of at
+   most csv.field_size_limit() = 131072 characters (terminator included; a longer FIELD raises, C16_csv_limit_exceeded:
+   such files are outside the fragment, the model then answers None = "the task raises") *)
 Theorem E2E_text_run : forall c text,
   e2e_run c text = e2e_core c (Accept.csv_raw_header text) (map Csv.parse (tl (phys_lines text))) /\
-  crashes c (map Csv.parse (tl (phys_lines text))) = false.
+  (Forall (fun ln => (N.of_nat (length ln) <= Csv.field_limit)%N) (tl (phys_lines text)) ->
+   crashes c (map Csv.parse (tl (phys_lines text))) = false).
 Proof. exact text_run. Qed.
 
-Theorem E2E_no_csv_error : forall c text, crashes c (parse_lines text) = false.
+Theorem E2E_no_csv_error : forall c text, short_lines text -> crashes c (parse_lines text) = false.
 Proof. exact no_csv_error. Qed.
 
-(* a file rendered by the model's writer from a header and a table of cells without line breaks is read back as
-   exactly that header and that table (malformed rows included: they are rows of another length) *)
+(* a file rendered by the model's writer from a header and a table of cells without line breaks, each of at most
+   csv.field_size_limit() characters (flen_ok), is read back as exactly that header and that table (malformed rows
+   included: they are rows of another length) *)
 Theorem E2E_wellformed_file : forall (names : list (list N)) (rows : list (list (list N))),
   names <> [] ->
   Forall (none (fun ch => (ch =? COMMA)%N || is_nl ch)) names ->
   edge_clean (join_with [COMMA] names) ->
   Forall (fun r => r <> [] /\ Forall (none is_nl) r) rows ->
+  Forall (Forall CsvProofs.flen_ok) rows ->
   header_of (render_file names rows) = names /\ parse_lines (render_file names rows) = map Some rows.
 Proof. exact wellformed_file. Qed.
 
 (* ... so the run, and with it E2E_spec, is a statement about the TABLE *)
 Theorem E2E_wellformed_run : forall c (names : list (list N)) (rows : list (list (list N))),
   names <> [] -> Forall (none (fun ch => (ch =? COMMA)%N || is_nl ch)) names -> edge_clean (join_with [COMMA] names) ->
-  Forall (fun r => r <> [] /\ Forall (none is_nl) r) rows ->
+  Forall (fun r => r <> [] /\ Forall (none is_nl) r) rows -> Forall (Forall CsvProofs.flen_ok) rows ->
   e2e_run c (render_file names rows) = e2e_core c names (map Some rows).
 Proof. exact wellformed_run. Qed.
 
